@@ -10,6 +10,10 @@ for d in sorted(glob.glob("/verif/seeded/*/")):
     if not os.path.exists(mp):
         continue
     m = json.load(open(mp))
+    if "confirmed" not in m:
+        what, needs = DESC.get(n, ["", ""])
+        print("| %s | %s | %s | (not confirmed separately) | %s |" % (n, what, needs, m.get("note", "")))
+        continue
     c = m["confirmed"]
     conf = "/".join("yes" if c[k] else "NO" for k in ("demo_fails_with_change", "suite_passes_with_change", "demo_passes_without_change"))
     by = []
